@@ -22,7 +22,7 @@ def keepLog (lvl : Bytes) (lc : LogCall) : Bool := levelPriority lc.level ≤ le
 
 /-- The log batch a kept `ClientLog` call becomes. -/
 def logBatch (rid : Bytes) (lc : LogCall) : Batch :=
-  .log lc.level lc.msg (mapOfKVs lc.extras) (ridOpt rid)
+  .log lc.level lc.msg (wireExtras (mapOfKVs lc.extras)) (ridOpt rid)
 
 /-- The error the client is told about when the handler fails or panics. -/
 def failure : Outcome → Option Bytes
@@ -338,5 +338,45 @@ example :
   decide
 
 example : mapOfKVs [([2], [1]), ([1], [5]), ([2], [7])] = [([1], [5]), ([2], [7])] := by decide
+
+/-! ### Extras survive the JSON encoding -/
+
+/-- Text made of ASCII bytes only — which includes every control character 0x00–0x1f, 0x7f,
+quotes and backslashes — comes back from the JSON round trip unchanged. -/
+theorem jsonCoerce_ascii (s : Bytes) (h : ∀ b ∈ s, b < 0x80) : jsonCoerce s = s := by
+  unfold jsonCoerce
+  have key : ∀ (n : Nat) (t : Bytes), t.length ≤ n → (∀ b ∈ t, b < 0x80) → jsonCoerceAux n t = t := by
+    intro n
+    induction n with
+    | zero => intro t hl _; cases t with
+      | nil => rfl
+      | cons b r => simp at hl
+    | succ k ih =>
+      intro t hl ht
+      cases t with
+      | nil => rfl
+      | cons b r =>
+        have hb : b < 0x80 := ht b (by simp)
+        have hlen : utf8SeqLen (b :: r) = 1 := by simp [utf8SeqLen, hb]
+        simp only [jsonCoerceAux, hlen, List.take_succ_cons, List.take_zero, List.drop_succ_cons, List.drop_zero]
+        rw [ih r (by simpa using hl) (fun x hx => ht x (by simp [hx]))]
+        rfl
+  exact key s.length s (Nat.le_refl _) h
+
+/-- **extras_delivered.** Every kept log call arrives with exactly the extras map the handler
+passed (keys and values after the JSON round trip), whatever bytes they are made of. -/
+theorem extras_delivered (t : Transport) (m : UMethod) (lvl rid : Bytes) (s : UnaryScript) :
+    ((unaryResponse t m lvl rid s).batches.filter Batch.isLog).map
+        (fun b => match b with | .log _ _ e _ => e | _ => []) =
+      (s.logs.filter (keepLog lvl)).map fun lc => wireExtras (mapOfKVs lc.extras) := by
+  rw [(logs_in_emission_order t m lvl rid s).1, List.map_map]
+  rfl
+
+-- control characters, quote, backslash, DEL, U+2028 pass unchanged; each invalid byte becomes U+FFFD
+example : jsonCoerce [0x00, 0x07, 0x0b, 0x1f, 0x22, 0x5c, 0x7f, 0xe2, 0x80, 0xa8] =
+    [0x00, 0x07, 0x0b, 0x1f, 0x22, 0x5c, 0x7f, 0xe2, 0x80, 0xa8] := by decide
+example : jsonCoerce [0x61, 0xff, 0xfe, 0xc3, 0x28, 0xed, 0xa0, 0x80, 0xc0, 0xaf, 0xe2, 0x82] =
+    [0x61] ++ replacementChar ++ replacementChar ++ replacementChar ++ [0x28] ++ replacementChar ++ replacementChar
+      ++ replacementChar ++ replacementChar ++ replacementChar ++ replacementChar ++ replacementChar := by decide
 
 end Vgi.Props.C04
